@@ -134,14 +134,56 @@ theorem returns_quorum_zone (hr : run c (init c order pre) evs = some s) (hz : c
 theorem error_has_cause (hr : run c (init c order pre) evs = some s) {e} (hm : s.main = .retErr e) :
     (e = .invalid ∧ c.invalid = true) ∨
     (e = .cancelled ∧ s.parentCanc = true) ∨
-    failed c s = true ∨
-    (∃ i, e = .inst i ∧ c.hasTerm = true ∧ (i, Res.term) ∈ s.fin) := by
+    (failed c s = true ∧ ∃ i, s.doneErr.getLast? = some i ∧ (e = .inst i ∨ e = .cancelled)) ∨
+    (∃ i, e = .inst i ∧ c.hasTerm = true ∧ (i, Res.term) ∈ s.fin) ∨
+    (e = .cancelled ∧ c.hasTerm = true ∧ ∃ i, s.abT i = true) := by
   obtain ⟨_, hB, _⟩ := inv_reachC hr
-  rcases hB.err_ret e hm with ⟨h1, h2, _⟩ | ⟨_, _, h3 | h3 | h3⟩
+  rcases hB.err_ret e hm with ⟨h1, h2, _⟩ | ⟨_, _, h3 | h3 | h3 | h3⟩
   · exact Or.inl ⟨h1, h2⟩
   · exact Or.inr (Or.inl h3)
   · exact Or.inr (Or.inr (Or.inl h3))
-  · exact Or.inr (Or.inr (Or.inr h3))
+  · exact Or.inr (Or.inr (Or.inr (Or.inl h3)))
+  · exact Or.inr (Or.inr (Or.inr (Or.inr h3)))
+
+/-- the tracker's counters count the history: successes received (`resMap`), failures counted (`doneErr`). -/
+theorem counters_match_history (hr : run c (init c order pre) evs = some s) :
+    (c.zoneMode = false → s.nSucc = s.resMap.length ∧ s.nErr = s.doneErr.length) ∧
+    (c.zoneMode = true → ∀ z, s.waiting z = (List.range c.n).countP (waitingPred c s.resMap s.doneErr z) ∧
+        s.fails z = s.doneErr.countP (fun j => decide (c.zoneOf j = z))) ∧
+    (∀ i, i ∈ s.resMap → i < c.n ∧ (i, Res.ok) ∈ s.fin) ∧
+    (s.main = .running → ∀ i, i ∈ s.resMap ↔ ((i, Res.ok) ∈ s.fin ∧ s.phase i = .consumed)) ∧
+    s.resMap.Nodup ∧ s.doneErr.Nodup ∧
+    (∀ i, i ∈ s.doneErr → i < c.n ∧ (i, Res.ok) ∉ s.fin ∧ s.phase i = .consumed) := by
+  obtain ⟨hA, _, hC⟩ := inv_reachC hr
+  exact ⟨fun hz => ⟨hC.flat_succ hz, hC.flat_err hz⟩, fun hz z => ⟨hC.zone_wait hz z, hC.zone_fail hz z⟩,
+    fun i hi => ⟨hA.res_lt i hi, hC.res_fin i hi⟩, hA.run_res, hA.res_nodup, hC.done_nodup,
+    fun i hi => ⟨hC.done_lt i hi, hC.done_nok i hi, hC.done_phase i hi⟩⟩
+
+/-- while the main loop runs — in terms of what it has received: not zone-aware, at most `MaxErrors`
+failures counted and fewer than `n − MaxErrors` successes received; zone-aware, failures in at most
+`MaxUnavailableZones` zones and fewer than `zones − MaxUnavailableZones` zones complete (a zone is
+complete when none of its instances is outstanding or failed). -/
+theorem running_means_undecided_obs (hr : run c (init c order pre) evs = some s) (hm : s.main = .running) :
+    (c.zoneMode = false → s.doneErr.length ≤ c.maxErrors ∧ s.resMap.length + c.maxErrors < c.n) ∧
+    (c.zoneMode = true →
+      (c.zoneList.filter fun z => decide (0 < s.doneErr.countP fun j => decide (c.zoneOf j = z))).length ≤ c.maxUnavail ∧
+      (c.zoneList.filter fun z => (List.range c.n).countP (waitingPred c s.resMap s.doneErr z) == 0 &&
+          s.doneErr.countP (fun j => decide (c.zoneOf j = z)) == 0).length + c.maxUnavail < c.zoneList.length) := by
+  obtain ⟨_, hB, hC⟩ := inv_reachC hr
+  obtain ⟨h1, h2⟩ := hB.loop_inv hm
+  refine ⟨?_, ?_⟩
+  · intro hz
+    simp only [succeeded, failed, hz, Bool.false_eq_true, if_false, decide_eq_false_iff_not] at h1 h2
+    rw [← hC.flat_succ hz, ← hC.flat_err hz]; omega
+  · intro hz
+    simp only [succeeded, failed, hz, if_true, decide_eq_false_iff_not] at h1 h2
+    have e1 : (fun z => decide (s.fails z > 0)) = fun z => decide (0 < s.doneErr.countP fun j => decide (c.zoneOf j = z)) := by
+      funext z; rw [hC.zone_fail hz z]
+    have e2 : (fun z => s.waiting z == 0 && s.fails z == 0) = fun z => (List.range c.n).countP (waitingPred c s.resMap s.doneErr z) == 0 &&
+          s.doneErr.countP (fun j => decide (c.zoneOf j = z)) == 0 := by
+      funext z; rw [hC.zone_wait hz z, hC.zone_fail hz z]
+    rw [e1] at h2; rw [e2] at h1
+    omega
 
 /-- what `failed` means in terms of processed failures. -/
 theorem failed_means (hr : run c (init c order pre) evs = some s) (hf : failed c s = true) :
@@ -237,8 +279,8 @@ theorem terminal_error_returns (c : Cfg) (s : St) (i : Nat) (rest : List (Nat ×
     ∃ s', step c s .recv = some s' ∧ s'.main = .retErr (.inst i) ∧ ∀ j, s'.ctx j = true := by
   refine ⟨recvStep c s i .term rest, ?_, ?_, ?_⟩
   · simp only [step, hm, hch, if_true]
-  · rw [recvStep_term c s i .term rest ⟨ht, rfl⟩]; rfl
-  · rw [recvStep_term c s i .term rest ⟨ht, rfl⟩]; intro j; rfl
+  · rw [recvStep_term c s i .term rest (by simp [isTerminal, ht])]; simp [errKind]
+  · rw [recvStep_term c s i .term rest (by simp [isTerminal, ht])]; intro j; rfl
 
 theorem cancel_returns (c : Cfg) (s : St) (hm : s.main = .running) (hp : s.parentCanc = true) :
     ∃ s', step c s .ctxDone = some s' ∧ s'.main = .retErr .cancelled := by
